@@ -239,10 +239,10 @@ def run(ctx):
             f.write('R %s\n' % r.hex())
         for t in texts:
             f.write('S %s\n' % (t.encode('ascii').hex() or '-'))
-    impl, _ = core.run_tool(ctx.harness, ['c19', 'obs', path])
+    impl, _ = core.run_tool_sharded(ctx.harness, ['c19', 'obs'], path)
     impl = [l for l in impl if l]
     if ctx.model:
-        model, _ = core.run_tool(ctx.model, ['c19', 'obs', path])
+        model, _ = core.run_tool_sharded(ctx.model, ['c19', 'obs'], path)
         for k, a, b in core.diff_lines(model, impl, limit=10):
             case = b.split()[:2] if b != '<missing>' else a.split()[:2]
             txt = ''
